@@ -103,5 +103,30 @@ def sqrtK (k : Nat) : QQ → QQ
       fin ((Nat.sqrt (a * b * 4 ^ k) : Rat) / ((b * 2 ^ k : Nat) : Rat))
   | _ => poison
 
+/-- power-of-two mode: `2^e` with `e` the largest integer such that `4^e ≤ x`; `sqrt 0 = 0`. -/
+def sqrtPow2 : QQ → QQ
+  | fin r =>
+    if r < 0 then poison
+    else if r = 0 then fin 0
+    else
+      let a : Nat := r.num.toNat
+      let b : Nat := r.den
+      if b ≤ a then
+        let e := Nat.log2 (a / b) / 2
+        fin ((2 ^ e : Nat) : Rat)
+      else
+        -- smallest f ≥ 1 with 4^f * a ≥ b
+        let rec go (fuel f : Nat) : Nat :=
+          match fuel with
+          | 0 => f
+          | fuel + 1 => if 4 ^ f * a < b then go fuel (f + 1) else f
+        let f := go (Nat.log2 b + 2) 1
+        fin (1 / ((2 ^ f : Nat) : Rat))
+  | _ => poison
+
+/-- sqrt selected by the harness-wide mode: `k ≥ 0` → `sqrtK k`, negative → `sqrtPow2` -/
+def sqrtMode (mode : Int) (x : QQ) : QQ :=
+  if mode < 0 then sqrtPow2 x else sqrtK mode.toNat x
+
 end QQ
 end Piqp
